@@ -277,13 +277,11 @@ octosql "SELECT * FROM plugins.plugins"`,
 		}
 		var physicalLimitExpression *physical.Expression
 		if outputOptions.Limit != nil {
-			physicalExpr, err := typecheckExpr(ctx, *outputOptions.Limit, env.WithRecordSchema(physicalPlan.Schema), logical.Environment{
+			// The limit is evaluated once, without a record: it can't reference the query's columns.
+			physicalExpr, err := typecheckExpr(ctx, *outputOptions.Limit, env, logical.Environment{
 				CommonTableExpressions: map[string]logical.CommonTableExpression{},
 				TableValuedFunctions:   tableValuedFunctions,
-				UniqueVariableNames: &logical.VariableMapping{
-					Mapping: mapping,
-				},
-				UniqueNameGenerator: uniqueNameGenerator,
+				UniqueNameGenerator:    uniqueNameGenerator,
 			})
 			if err != nil {
 				return fmt.Errorf("couldn't typecheck limit expression with index: %w", err)
@@ -356,7 +354,7 @@ octosql "SELECT * FROM plugins.plugins"`,
 				orderByExpressions[i] = execExpr
 			}
 			if physicalLimitExpression != nil {
-				execExpr, err := physicalLimitExpression.Materialize(ctx, env.WithRecordSchema(physicalPlan.Schema))
+				execExpr, err := physicalLimitExpression.Materialize(ctx, env)
 				if err != nil {
 					return fmt.Errorf("couldn't materialize output limit expression with index: %w", err)
 				}
